@@ -58,27 +58,30 @@ Proof. intros L. apply access_fuel_irrelevant. unfold access_fuel. lia. Qed.
 Lemma not_kw_le s r : not_kw s = Some r -> len r <= len s.
 Proof. intros H. apply not_kw_len in H. lia. Qed.
 
-Theorem clause_answers : forall s, clause_top rv s <> POof.
+Theorem clause_enough_fuel : forall n s, len s < n -> clause rv n s <> POof.
 Proof.
-  intros s. unfold clause_top, clause. set (n := S (len s)).
+  intros n s Hn. unfold clause.
   pose proof (skip_len s false) as L0. fold (skip_ws_comments s) in L0.
   destruct (match not_kw (skip_ws_comments s) with Some r => (true, r) | None => (false, skip_ws_comments s) end) as [neg s1] eqn:E0.
   assert (L1 : len s1 <= len s).
   { destruct (not_kw (skip_ws_comments s)) as [r|] eqn:E; inversion E0; subst; [apply not_kw_le in E; lia|lia]. }
-  rewrite (access_at n s1) by (unfold n; lia).
+  rewrite (access_at n s1) by lia.
   pose proof (access_answers s1) as A1. destruct (access_top s1) as [q r1| | | |] eqn:Ea; try discriminate; [|congruence].
   assert (L2 : len r1 < len s1) by (unfold access_top in Ea; now apply access_consumes in Ea).
   pose proof (skip_len r1 false) as L3. fold (skip_ws_comments r1) in L3.
   pose proof (value_cmp_nooof (skip_ws_comments r1)) as V. destruct (value_cmp (skip_ws_comments r1)) as [c r2| | | |] eqn:Ec; try discriminate; [|congruence].
   apply value_cmp_consumes in Ec.
   destruct (is_unary (fst c)); [apply with_message_nooof|].
-  pose proof (parse_value_enough_fuel rv n r2 ltac:(unfold n; lia)) as P.
+  pose proof (parse_value_enough_fuel rv n r2 ltac:(lia)) as P.
   destruct (parse_value rv n r2) as [l r3| | | |]; try discriminate; [apply with_message_nooof| |congruence].
   pose proof (function_like_nooof (skip_ws_comments r2)) as F. destruct (function_like (skip_ws_comments r2)); try discriminate; [|congruence].
   pose proof (skip_len r2 false) as L4. fold (skip_ws_comments r2) in L4.
-  rewrite (access_at n (skip_ws_comments r2)) by (unfold n; lia).
+  rewrite (access_at n (skip_ws_comments r2)) by lia.
   pose proof (access_answers (skip_ws_comments r2)) as A2. destruct (access_top (skip_ws_comments r2)); try discriminate; [apply with_message_nooof|congruence].
 Qed.
+
+Theorem clause_answers : forall s, clause_top rv s <> POof.
+Proof. intros s. unfold clause_top. apply clause_enough_fuel. lia. Qed.
 
 (* ---------------------------------------------------------------- the negation in front of a clause *)
 Lemma clause_neg_flag n s c rest : clause rv n s = POk c rest ->
